@@ -53,6 +53,11 @@ CONFIGS = {
                             get=[("BUILD", 0), ("BASE64URL", None), ("URI_APPEND", None)],
                             post=[("BUILD", 0), ("NETBIOSU", None), ("URI_APPEND", None), ("BUILD", 1), ("MASK", None), ("BASE64", None), ("PRINT", None)],
                             recover=[("print", None), ("base64", None)]),
+    # literals that look like percent escapes around data appended to the URI: the path is taken as it is on the wire
+    "percent_literals": dict(domains="a.example,/load/", submit="/post/",
+                             get=[("BUILD", 0), ("BASE64URL", None), ("PREPEND", b"q%3D"), ("APPEND", b"%7D%41"), ("URI_APPEND", None)],
+                             post=[("BUILD", 0), ("NETBIOS", None), ("PREPEND", b"%2F"), ("URI_APPEND", None), ("BUILD", 1), ("BASE64", None), ("PRINT", None)],
+                             recover=[("print", None), ("base64", None)]),
     "swapped_verbs": dict(domains="a.example,/in", submit="/out", verb_get="POST", verb_post="GET",
                           get=[("BUILD", 0), ("BASE64", None), ("PRINT", None)],
                           post=[("BUILD", 0), ("BASE64URL", None), ("PARAMETER", b"i"), ("BUILD", 1), ("BASE64URL", None), ("HEADER", b"X-Data")],
@@ -189,6 +194,9 @@ def produce(client_mod, c2, beacon, key, conf_name, kinds, seed):
                         cl.counter += 1
                         cb = rng.choice([0, 30, 32])
                         data = rng.choice([b"", b"xy", b"out-%d-" % (m["first"] + j) + bytes(rng.randrange(256) for _ in range(rng.choice([1, 20, 40])))])
+                        if seed % 25 == 7 and j == 0:
+                            # a callback larger than anything a task may be (a screenshot): more than 1 MiB in one frame, followed by the others
+                            data = b"big-%d-" % (m["first"] + j) + rng.randbytes((1 << 20) + rng.choice([1, 4096]))
                         pk = c2.CallbackPacket(counter=cl.counter, size=len(data), callback=c2.BeaconCallback(cb), data=data)
                         out += c2.encrypt_packet(pk.dumps(), **cl.c2http.beacon_keys._asdict()).dumps()
                         sent.append(("callback", m["first"] + j, (cl.counter, cb, data)))
